@@ -202,6 +202,8 @@ func (vc *FnVC) enterBlock(b *ssa.BasicBlock) *State {
 	return st
 }
 
+var mergeIte = os.Getenv("GOVC_MERGE_ITE") != ""
+
 func (vc *FnVC) mergeStates(b *ssa.BasicBlock, es []edge) *State {
 	first := vc.out[es[0].from]
 	sameEpoch := true
@@ -282,9 +284,29 @@ func (vc *FnVC) mergeStates(b *ssa.BasicBlock, es []edge) *State {
 			st.comp[k] = v0
 			continue
 		}
+		if t, info, ok := vc.mergeByStores(es, k); ok {
+			n := vc.enc.freshConst(k, vc.compSort[k])
+			vc.emit(eq(n, t))
+			if vc.stores == nil {
+				vc.stores = map[string]storeInfo{}
+			}
+			vc.stores[n] = info
+			st.comp[k] = n
+			continue
+		}
 		n := vc.enc.freshConst(k, vc.compSort[k])
-		for _, e := range es {
-			vc.emit(implies(e.cond, eq(n, vc.cur(vc.out[e.from], k))))
+		if mergeIte {
+			// definitional form: no (negated) array equalities for the solver to refute by
+			// extensionality; the value on an unreachable join is irrelevant
+			t := vc.cur(vc.out[es[len(es)-1].from], k)
+			for i := len(es) - 2; i >= 0; i-- {
+				t = ite(es[i].cond, vc.cur(vc.out[es[i].from], k), t)
+			}
+			vc.emit(eq(n, t))
+		} else {
+			for _, e := range es {
+				vc.emit(implies(e.cond, eq(n, vc.cur(vc.out[e.from], k))))
+			}
 		}
 		st.comp[k] = n
 	}
@@ -1109,4 +1131,52 @@ func (vc *FnVC) onlyFreshWrites(comp string) bool {
 		}
 	}
 	return true
+}
+
+// mergeByStores: when every incoming version of a reference-indexed component was obtained from one
+// common version by stores at a few known references, the joined version is that common version
+// with, at each of those references, the row selected by the edge taken. Exact (the versions agree
+// with the base everywhere else) and free of equalities between arrays.
+func (vc *FnVC) mergeByStores(es []edge, k string) (string, storeInfo, bool) {
+	if os.Getenv("GOVC_NO_STOREMERGE") != "" || !strings.HasPrefix(vc.compSort[k], "(Array Int ") {
+		return "", storeInfo{}, false
+	}
+	base := ""
+	var refs []string
+	for i, e := range es {
+		v := vc.cur(vc.out[e.from], k)
+		b := v
+		var rs []string
+		if info, ok := vc.stores[v]; ok {
+			b, rs = info.base, info.refs
+		}
+		if i == 0 {
+			base = b
+		} else if b != base {
+			return "", storeInfo{}, false
+		}
+		for _, r := range rs {
+			dup := false
+			for _, x := range refs {
+				if x == r {
+					dup = true
+				}
+			}
+			if !dup {
+				refs = append(refs, r)
+			}
+		}
+	}
+	if len(refs) == 0 || len(refs) > 3 {
+		return "", storeInfo{}, false
+	}
+	t := base
+	for _, r := range refs {
+		row := sel(vc.cur(vc.out[es[len(es)-1].from], k), r)
+		for i := len(es) - 2; i >= 0; i-- {
+			row = ite(es[i].cond, sel(vc.cur(vc.out[es[i].from], k), r), row)
+		}
+		t = sto(t, r, row)
+	}
+	return t, storeInfo{base: base, refs: refs}, true
 }
